@@ -9,6 +9,9 @@ Byte strings are hex, the empty string is `-`.
   istep fwd|inv write|commit|drop|fail             -> ok      (one step inside metricIndexDatabase.Flush, as observed)
   flush-index-end ok|fail                          -> ok inv=.. fwd=..  (the rest of the flush / the flush returned an error)
   flush-meta-fail                                  -> ok tv=..          (a failed metadata flush changes nothing)
+  qpark <point> <metric> <groupKeys|-> | <placement,placement,..> | <cond>
+      -> as q: the query was parked at yield point <point> (dictfind|dictscan|inverted|forward) while the
+         placement ops ran (reader ‖ flusher); the read order comes from Generated.C10.*MemFirst
   rx <pattern> ok|bad <literalPrefix> <matching value> ...   (one row of the regexp table) -> ok
   q <metric> <groupKey,groupKey|-> <cond>          -> ok s=<ids> g=<groups> | err <kind> | panic
       cond (prefix form): eq K V | in K n V1..Vn | like K V | rx K P | not C | paren C | and C C | or C C | badop C C
@@ -177,6 +180,31 @@ def fileOf (es : List (Nat × Nat)) : List Container :=
   | [] => []
 
 /-- placement ops answer with the number of level-0 files of the stores they touch -/
+def readOrder : ReadOrder :=
+  { dictScanMemFirst := Generated.C10.dictScanMemFirst
+    invMemFirst := Generated.C10.invMemFirst
+    fwdMemFirst := Generated.C10.fwdMemFirst }
+
+def stepOfName : String → Option Step
+  | "prepare-meta" => some .prepareMeta | "flush-meta" => some .flushMeta | "compact-meta" => some .compactMeta
+  | "prepare-index" => some .prepareIndex | "flush-index" => some .flushIndex | "compact-index" => some .compactIndex
+  | _ => none
+
+def pointOfName : String → Option ParkPoint
+  | "dictfind" => some .dictFind | "dictscan" => some .dictScan
+  | "inverted" => some .inverted | "forward" => some .forward
+  | _ => none
+
+def showLeaf (r : Except Err LeafResult) : String :=
+  match r with
+  | .error e => showErr e
+  | .ok r =>
+    let g := match r.groups with
+      | none => "-"
+      | some (.error e) => "g" ++ showErr e
+      | some (.ok gs) => showGroups gs
+    s!"ok s={showIds (sortDedup r.series)} g={g}"
+
 def placement (d : DSt) (s : Step) : DSt × String :=
   let st' := d.st.step flags s
   let out := match s with
@@ -242,6 +270,19 @@ def step (d : DSt) (ws : List String) : DSt × String :=
             | some (.ok gs) => showGroups gs
           (d, s!"ok s={showIds (sortDedup r.series)} g={g}")
     | _, _, _ => (d, "bad-op")
+  | "qpark" :: pt :: m :: gb :: "|" :: rest =>
+    match splitBar rest with
+    | [[places], cond] =>
+      match pointOfName pt, unhex m, (if gb = "-" then some [] else (gb.splitOn ",").mapM unhex),
+            (places.splitOn ",").mapM stepOfName, parseCond (cond.length + 1) cond with
+      | some pt, some m, some keys, some steps, some (c, []) =>
+        if (rxPatterns c).any (fun p => (Map.lookup d.rx p).isNone) then (d, "bad-op")
+        else
+          let s2 := steps.foldl (fun s x => s.step flags x) d.st
+          let h := parkedState readOrder pt d.st s2
+          ({ d with st := s2 }, showLeaf (leafQuery flags (matcherOf d.rx) h m keys c))
+      | _, _, _, _, _ => (d, "bad-op")
+    | _ => (d, "bad-op")
   | "fwdread" :: high :: "|" :: es =>
     match high.toNat?, es.mapM parseSV with
     | some h, some es =>
